@@ -139,3 +139,145 @@ Definition P (i : input) (o : obs) : bool :=
               (map t_id (firstn 1 (i_q i) ++ after_block (stop_of (i_stop i)) t rest ++ i_app i))
     && ns_eqb (obs_mids t o) (t_mids t ++ flat_map t_mids b)
   else true.
+
+(* ====================================================================== part 2: the queue set
+   The property's premise is "when the HEAD TASK OF A QUEUE is executed": the queue is the
+   one the task's queue name points to.  Read for a whole set of named queues:
+   - the executed task is the head of the queue its name points to: the text applies to that
+     queue ([P] above), and "every other task keeps its place" holds in particular for every
+     task of every OTHER queue: a run in queue A never touches queue B;
+   - the executed task is in NO queue (its name - the empty name of the webhook handlers'
+     tasks, or any name no queue of the set has - points nowhere, and no queue holds it): no
+     head task of a queue is executed, so nothing is merged (the run gets the task's own
+     contexts) and EVERY queue of the set stays exactly as it is;
+   - anything else (the task sits in the queue but not at its head, sits in another queue than
+     the one it names, or sits in a queue while naming none, like the bootstrap tasks) cannot
+     arise from the operator's workers; only "queues the task's name does not point to are not
+     touched" is claimed there.
+   Tasks arriving concurrently are appended to their queues and never lost. *)
+
+(* the queue / the id list a name points to (names are unique in a set) *)
+Definition named {A} (n : N) (l : list (N * A)) : option A :=
+  option_map snd (find (fun p => N.eqb (fst p) n) l).
+Definition queue_named (n : N) (qs : qset) : option (list task) := named n qs.
+(* the tasks that arrived for queue [n], in arrival order *)
+Definition arrived (n : N) (app : list (N * task)) : list task :=
+  map snd (filter (fun p => N.eqb (fst p) n) app).
+Definition all_ids (qs : qset) : list N := flat_map (fun p => map t_id (snd p)) qs.
+Definition is_none {A} (o : option A) : bool := match o with None => true | Some _ => false end.
+
+(* a queue set: distinct non-empty names; task ids are unique (uuids) over all queues and arrivals *)
+Definition wf_set (i : sinput) : bool :=
+  nodupb (map fst (s_qs i)) && negb (mem_N 0 (map fst (s_qs i)))
+  && nodupb (all_ids (s_qs i) ++ map (fun p => t_id (snd p)) (s_app i)).
+
+(* queue [n] holds exactly what it held, followed by its arrivals *)
+Definition untouched (i : sinput) (o : sobs) (n : N) : bool :=
+  match queue_named n (s_qs i), named n (so_queues o) with
+  | Some q, Some ids => ns_eqb ids (map t_id (q ++ arrived n (s_app i)))
+  | _, _ => false
+  end.
+
+Definition P_set (i : sinput) (o : sobs) : bool :=
+  if wf_set i then
+    let t := s_t i in
+    let names := map fst (s_qs i) in
+    ns_eqb (map fst (so_queues o)) names                      (* the same queues *)
+    && match queue_named (t_qn t) (s_qs i) with
+       | None =>
+           (* the name points to no queue *)
+           if mem_N (t_id t) (all_ids (s_qs i)) then true     (* ... but the task sits in one: no claim *)
+           else is_none (so_res o) && forallb (untouched i o) names
+       | Some q =>
+           forallb (fun n => N.eqb n (t_qn t) || untouched i o n) names
+           && match named (t_qn t) (so_queues o) with
+              | Some ids =>                                   (* [P] claims something only if t is q's head *)
+                  P (mkIn t (s_stop i) q (arrived (t_qn t) (s_app i))) (mkObs (so_res o) ids)
+              | None => false
+              end
+       end
+  else true.
+
+(* ====================================================================== part 3: sessions
+   The same reading for the operator: steps are executions of the head of a queue by its
+   worker and runs of tasks that are in no queue (webhook handlers).  Each step is judged
+   against the queue set as it was observed BEFORE the step (full content: ids, hooks, types,
+   stored contexts and monitor ids), so nothing of the model is needed to say what a step may
+   do.  A head whose hook fails stays at the head and must keep, as its stored contexts,
+   exactly what was delivered (they are delivered again by the retry); a head whose run
+   succeeds is removed by the worker. *)
+Definition task_eqb (a b : task) : bool :=
+  N.eqb (t_id a) (t_id b) && N.eqb (t_hook a) (t_hook b) && N.eqb (t_ty a) (t_ty b)
+  && Bool.eqb (t_meta a) (t_meta b) && ctxs_eqb (t_ctxs a) (t_ctxs b)
+  && ns_eqb (t_mids a) (t_mids b) && N.eqb (t_qn a) (t_qn b).
+Definition tasks_eqb : list task -> list task -> bool := list_eqb task_eqb.
+
+(* queue [n] is, task for task, what it was *)
+Definition same_queue (before after : qset) (n : N) : bool :=
+  match queue_named n before, queue_named n after with
+  | Some a, Some b => tasks_eqb a b
+  | _, _ => false
+  end.
+
+Definition wf_state (qs : qset) : bool :=
+  nodupb (map fst qs) && negb (mem_N 0 (map fst qs)) && nodupb (all_ids qs)
+  && forallb (fun p => forallb t_meta (snd p)) qs.
+
+Definition nostop (_ : task) : bool := false.
+
+Definition P_step (qs : qset) (st : ostep) (o : ostepobs) : bool :=
+  if wf_state qs then
+    let names := map fst qs in
+    let after := st_state o in
+    ns_eqb (map fst after) names
+    && match st with
+       | SHead qn ok =>
+           match queue_named qn qs with
+           | Some (t :: rest) =>
+               (* a run in queue qn never touches a queue its task does not name *)
+               forallb (fun n => N.eqb n qn || N.eqb n (t_qn t) || same_queue qs after n) names
+               && (if N.eqb (t_ty t) 0 && N.eqb (t_qn t) qn then
+                     (* the head task of the queue its name points to is executed *)
+                     let b := block nostop t rest in
+                     let C := t_ctxs t ++ flat_map t_ctxs b in
+                     match st_runs o, queue_named qn after with
+                     | [r], Some q' =>
+                         N.eqb (ru_hook r) (t_hook t)
+                         && left_out_ok C (ru_ctxs r)
+                         && (is_nil b || ctxs_eqb (ru_ctxs r) (spec_compact C))
+                         && tasks_eqb q'
+                              ((if st_success o then []
+                                else [mkTask (t_id t) (t_hook t) (t_ty t) true (ru_ctxs r)
+                                             (t_mids t ++ flat_map t_mids b) (t_qn t)])
+                               ++ after_block nostop t rest)
+                     | _, _ => false
+                     end
+                   else true)
+           | _ =>
+               (* no such queue or nothing in it: nothing is executed, nothing changes *)
+               is_nil (st_runs o) && forallb (same_queue qs after) names
+           end
+       | SLoose t ok =>
+           if t_meta t && negb (mem_N (t_id t) (all_ids qs)) then
+             forallb (fun n => N.eqb n (t_qn t) || same_queue qs after n) names
+             && match queue_named (t_qn t) qs with
+                | None =>
+                    (* the task is in no queue: it is run with its own contexts, nothing merged
+                       (and, by the line above, every queue is what it was) *)
+                    match st_runs o with
+                    | [r] => N.eqb (ru_hook r) (t_hook t) && ctxs_eqb (ru_ctxs r) (t_ctxs t)
+                    | _ => false
+                    end
+                | Some _ => true
+                end
+           else true
+       end
+  else true.
+
+(* a session: every step against the state observed after the previous one *)
+Fixpoint P_session (qs : qset) (steps : list ostep) (obs : list ostepobs) : bool :=
+  match steps, obs with
+  | [], [] => true
+  | st :: r, o :: ro => P_step qs st o && P_session (st_state o) r ro
+  | _, _ => false
+  end.
